@@ -88,7 +88,7 @@ Definition prepare_error (r : resp) : option fexc :=
   | RRetryable k tag => if is_conn_kind k then None else Some (XResp k tag)
   | RUnprepared _ tag => Some (XUnprepared tag)
   | ROtherError tag => Some (XOtherError tag)
-  | RRows | RVoid | ROtherExc _ | RJunk => Some XUnexpected
+  | RRows | RRowsMore | RVoid | ROtherExc _ | RJunk => Some XUnexpected
   | RPrepared _ => None
   end.
 
